@@ -1088,7 +1088,7 @@ REGRESSIONS = [
     ("object_oriented.fix_unconventional_class_definitions", {}, "a = 5\nclass C:\n    a = 1\nC.b = a\nC.x = C()\nC.__y = 2\nprint(C.b, type(C.x).__name__, '__y' in vars(C))\n"),
     ("fixes.remove_duplicate_functions", {"preserve": P0}, "def f(x):\n    return len(x)\ndef g(x):\n    return sum(x)\ndef h(x):\n    return 1.5\ndef k(x):\n    return 2.5\ndef a(x, *, y):\n    return x\ndef b(x, y):\n    return x\nprint(f([5]), g([5]), h(0), k(0), a(1, y=2), b(1, 2))\n"),
     ("fixes.delete_unused_functions_and_classes", {"preserve": frozenset({"A"})}, "class A:\n    def __init__(self):\n        self.v = 1\n    def __repr__(self):\n        return 'R'\n    def unused(self):\n        return 1\n"),
-    # 8e0b238: deferred read through a function defined outside the compound statement
+    # 7051321: deferred read through a function defined outside the compound statement
     ("fixes.undefine_unused_variables", {"preserve": P0}, "def c():\n    return True\nr0 = lambda: v0\nif c():\n    v0 = 5\n    print(r0())\n    v0 = 6\n"),
     ("fixes.undefine_unused_variables", {"preserve": P0}, "def r0():\n    return v0\nfor i in (1, 2):\n    if i:\n        v0 = i\n        print(r0())\n        v0 = 0\n"),
     # ---- round 5: inputs of the repairs made by the owners of these sites (outside the Gallina fragments: decorators,
